@@ -23,8 +23,8 @@ pub fn run(args: &Args, rep: &mut Report) {
     let dms = crate::c01::dms_available();
     // (a) complete reachable graphs of small documents
     let mut rng = args.rng(2);
-    let n_docs = args.scale(24, 300);
-    let cap = if args.thorough() { 600 } else { 120 };
+    let n_docs = args.scale(24, 100);
+    let cap = if args.thorough() { 300 } else { 120 };
     let mut exhaustive_docs = 0u64;
     for d in 0..n_docs {
         if crate::report::should_stop() {
